@@ -82,8 +82,12 @@ def common_checks(r, want_valid=True):
 LEAF_ALL = ["int64", "float64", "bool", "int32", "uint8", "float32", "int8", "uint64", "int16", "uint16", "uint32"]
 
 
-def gen_pure(rng, depth, optleaf=0.3, optlist=0.2, regular=0.0, size0=True, leaf=None, leafrec=0.0):
-    """type with `depth` list levels below the array: lists / options / numbers only (leafrec: records of numbers as leaves)"""
+def gen_pure(rng, depth, optleaf=0.3, optlist=0.2, regular=0.0, size0=True, leaf=None, leafrec=0.0, union=0.0):
+    """type with `depth` list levels below the array: lists / options / numbers only (leafrec: records of numbers as leaves;
+    union: at most one union node, of two members with the same list depth that cannot be merged -- numbers against records)"""
+    if union and rng.random() < union:
+        return ("union", [gen_pure(rng, depth, optleaf, optlist, regular, size0, leaf, 0.0),
+                          gen_pure(rng, depth, optleaf, optlist, regular, size0, leaf, 1.0)])
     if depth == 0:
         if rng.random() < leafrec:
             k = rng.randint(1, 2)
@@ -92,7 +96,7 @@ def gen_pure(rng, depth, optleaf=0.3, optlist=0.2, regular=0.0, size0=True, leaf
         else:
             T = ("num", rng.choice(leaf or LEAF_ALL))
         return ("option", T) if rng.random() < optleaf else T
-    inner = gen_pure(rng, depth - 1, optleaf, optlist, regular, size0, leaf, leafrec)
+    inner = gen_pure(rng, depth - 1, optleaf, optlist, regular, size0, leaf, leafrec, union)
     if rng.random() < regular:
         T = ("regular", inner, rng.randint(0 if size0 else 1, 3))
     else:
@@ -231,6 +235,8 @@ def struct_depth(T):
         elif T[0] in ("list", "regular"):
             d += 1
             T = T[1]
+        elif T[0] == "union":
+            T = T[1][0]          # (gen_pure: all members have the same list depth)
         else:
             return d
 
@@ -238,13 +244,18 @@ def struct_depth(T):
 def has_record(T):
     if T[0] == "record":
         return True
+    if T[0] == "union":
+        return any(has_record(t) for t in T[1])
     if T[0] in ("list", "regular", "option"):
         return has_record(T[1])
     return False
 
 
+STRUCT_UNION = 0.06      # per level
+
+
 def _struct_case(rng, regular=0.25, maxdepth=3):
-    T = gen_pure(rng, rng.randint(0, maxdepth), regular=regular, leafrec=0.2)
+    T = gen_pure(rng, rng.randint(0, maxdepth), regular=regular, leafrec=0.2, union=STRUCT_UNION)
     vals = [L.gen_value(rng, T) for _ in range(L.toplen(rng, 0, 4))]
     lay = L.Enc(rng).encode(vals, T)
     return T, vals, lay, struct_depth(T)
@@ -971,7 +982,7 @@ def fam_broadcast(rng):
 def fam_fillna(rng):
     """C09: fill_none replaces exactly the None values at the top level by the given value and changes nothing else;
     is_none (bytemask) is True exactly at the None positions"""
-    T = gen_pure(rng, rng.randint(0, 2), regular=0.15, optleaf=0.3)
+    T = gen_pure(rng, rng.randint(0, 2), regular=0.15, optleaf=0.3, union=0.05)
     T = ("option", T[1] if T[0] == "option" else T)
     vals = [L.gen_value(rng, T) for _ in range(L.toplen(rng, 0, 5))]
     lay = L.Enc(rng).encode(vals, T)
